@@ -11,9 +11,10 @@ use petgraph::adj::{EdgeIndex as AEdgeIndex, List};
 use petgraph::csr::{Csr, EdgesNotSorted};
 use petgraph::data::{Build, DataMap, DataMapMut};
 use petgraph::graph::IndexType;
+use crate::iterlaws::{iter_laws, iter_laws_de, iter_laws_exact, law_verdict};
 use petgraph::visit::{
-    EdgeCount, EdgeRef, IntoEdgeReferences, IntoEdges, IntoNeighbors, IntoNodeIdentifiers,
-    IntoNodeReferences, NodeCount,
+    EdgeCount, EdgeRef, GetAdjacencyMatrix, GraphProp, IntoEdgeReferences, IntoEdges, IntoNeighbors,
+    IntoNodeIdentifiers, IntoNodeReferences, NodeCount, NodeIndexable, NodeRef, VisitMap, Visitable,
 };
 use petgraph::{Directed, EdgeType, Undirected};
 
@@ -50,7 +51,13 @@ fn dump_csr<Ty: EdgeType, Ix: IndexType>(ctx: &mut Ctx, g: &G<Ty, Ix>) {
 /// the full observation through the public API; every per-node reader is called with `Ix::new(i)`, `i` in `0..n`
 /// (the identity within the capacity of the index type; beyond it — `obs` cases — the index wraps, and so does the mirror)
 fn dump_csr_as<Ty: EdgeType, Ix: IndexType>(ctx: &mut Ctx, g: &G<Ty, Ix>, req: &str) {
-    let r = catch(|| {
+    let r = catch(|| csr_dump_string(g));
+    ctx.line(req, &or_panic(r));
+}
+
+/// the text of a `dump` answer (may panic where a reader panics)
+fn csr_dump_string<Ty: EdgeType, Ix: IndexType>(g: &G<Ty, Ix>) -> String {
+    {
         let n = g.node_count();
         let ix = |i: usize| Ix::new(i);
         let nw = list((0..n).map(|i| g[ix(i)]));
@@ -84,8 +91,7 @@ fn dump_csr_as<Ty: EdgeType, Ix: IndexType>(ctx: &mut Ctx, g: &G<Ty, Ix>, req: &
             ed,
             er
         )
-    });
-    ctx.line(req, &or_panic(r));
+    }
 }
 
 fn crow<Ty: EdgeType, Ix: IndexType>(ctx: &mut Ctx, g: &G<Ty, Ix>, a: usize, kmax: usize) {
@@ -183,7 +189,7 @@ fn gen_sorted(rng: &mut Rng, kmax: usize, big: bool) -> Vec<(usize, usize, i32)>
     es
 }
 
-fn run_csr<Ty: EdgeType, Ix: IndexType>(
+fn run_csr<Ty: EdgeType + std::fmt::Debug + Clone, Ix: IndexType>(
     ctx: &mut Ctx,
     rng: &mut Rng,
     case: u64,
@@ -456,6 +462,10 @@ fn run_csr<Ty: EdgeType, Ix: IndexType>(
         }
         if mutating {
             dump_csr(ctx, &g);
+            // the laws: always on a graph whose edges were just cleared, otherwise now and then mid-history
+            if k == 3 || rng.chance(6) {
+                csr_laws(ctx, rng, &g, &hubs);
+            }
         }
     }
     // final observation: every row's contains_edge answers, then the full dump
@@ -470,6 +480,7 @@ fn run_csr<Ty: EdgeType, Ix: IndexType>(
         }
     }
     dump_csr(ctx, &g);
+    csr_laws(ctx, rng, &g, &hubs);
     // finding D31 (fixed by 8cab180): beyond the index type's capacity `add_node` used to wrap silently
     // (`Ix::new(i)`); now it is the documented panic and the graph is unchanged.  Probe it at the end of some
     // u8 cases: fill up, call `add_node` on the full graph, observe the whole structure again, and check that
@@ -497,6 +508,8 @@ fn run_csr<Ty: EdgeType, Ix: IndexType>(
         let r = catch(|| g.add_node(1).index());
         ctx.line("add_node 1", &r.map(|x| x.to_string()).unwrap_or("panic".into()));
         dump_csr(ctx, &g);
+        // the laws on a graph that is full for its index type
+        csr_laws(ctx, rng, &g, &hubs);
     }
 }
 
@@ -511,7 +524,13 @@ fn eix<Ix: IndexType>(e: &AEdgeIndex<Ix>) -> String {
 }
 
 fn dump_list<Ix: IndexType>(ctx: &mut Ctx, g: &List<i32, Ix>, hs: &[AEdgeIndex<Ix>]) {
-    let r = catch(|| {
+    let r = catch(|| list_dump_string(g, hs));
+    ctx.line(&format!("dump {}", recs(hs.iter().map(eix).collect())), &or_panic(r));
+}
+
+/// the text of a `dump` answer (may panic where a reader panics)
+fn list_dump_string<Ix: IndexType>(g: &List<i32, Ix>, hs: &[AEdgeIndex<Ix>]) -> String {
+    {
         let n = g.node_count();
         let nids = list(g.node_indices().map(|x| x.index()));
         let ids = recs(g.edge_indices().map(|e| eix(&e)).collect());
@@ -548,8 +567,7 @@ fn dump_list<Ix: IndexType>(ctx: &mut Ctx, g: &List<i32, Ix>, hs: &[AEdgeIndex<I
             ed,
             h
         )
-    });
-    ctx.line(&format!("dump {}", recs(hs.iter().map(eix).collect())), &or_panic(r));
+    }
 }
 
 fn run_list<Ix: IndexType>(ctx: &mut Ctx, rng: &mut Rng, case: u64, w: u32) {
@@ -755,10 +773,15 @@ fn run_list<Ix: IndexType>(ctx: &mut Ctx, rng: &mut Rng, case: u64, w: u32) {
         if mutating {
             let hs = pick_dump(rng, &handles, &stale, &foreign);
             dump_list(ctx, &g, &hs);
+            // the laws: always on a list that was just cleared, otherwise now and then mid-history
+            if k == 6 || rng.chance(6) {
+                list_laws(ctx, rng, &g, &hs);
+            }
         }
     }
     let hs = pick_dump(rng, &handles, &stale, &foreign);
     dump_list(ctx, &g, &hs);
+    list_laws(ctx, rng, &g, &hs);
     // finding D31 (fixed by 8cab180, see run_csr): fill up, call every `add_node` variant on the full list
     // (documented panic), observe the whole structure after each, and check that the list is still usable
     if w == 8 && rng.chance(30) {
@@ -786,6 +809,8 @@ fn run_list<Ix: IndexType>(ctx: &mut Ctx, rng: &mut Rng, case: u64, w: u32) {
         full_add_node(ctx, rng, &mut g, 0);
         let hs = pick_dump(rng, &handles, &stale, &foreign);
         dump_list(ctx, &g, &hs);
+        // the laws on a list that is full for its index type
+        list_laws(ctx, rng, &g, &hs);
     }
 }
 
@@ -1009,6 +1034,642 @@ fn run_bsearch(ctx: &mut Ctx, rng: &mut Rng, case: u64) {
             ctx.line(&format!("bsearch {} {}", shown, x), &ans);
         }
     }
+}
+
+
+// ------------------------------------------------------------------------------------------------
+// wave 6: laws checked in the harness against the implementation itself (`law <name> => ok | VIOLATED <why>`;
+// the driver expects `ok`).  Iterator laws (crate::iterlaws) on EVERY iterator of csr.rs / adj.rs — fresh and
+// mid-iteration, on empty / full / cleared structures —, the visit-trait views against the inherent readers,
+// `Visitable` (visit_map / reset_map on maps made for a smaller and a larger graph) incl. the `VisitMap` calls on
+// the map type, `Clone` (incl. `clone_from` onto an arbitrary prior value), `Default`, `Debug`.
+
+/// forwards EVERY consuming method to the wrapped iterator (so that an override of `nth`, `count`, `last`, `fold`,
+/// `nth_back`, `rfold`, `len` in petgraph is really the code that runs) and maps the items to a comparable type
+struct Fwd<I: Iterator, T> {
+    it: I,
+    f: fn(I::Item) -> T,
+}
+
+impl<I: Iterator + Clone, T> Clone for Fwd<I, T> {
+    fn clone(&self) -> Self {
+        Fwd { it: self.it.clone(), f: self.f }
+    }
+}
+
+impl<I: Iterator, T> Iterator for Fwd<I, T> {
+    type Item = T;
+    fn next(&mut self) -> Option<T> {
+        self.it.next().map(self.f)
+    }
+    fn nth(&mut self, n: usize) -> Option<T> {
+        self.it.nth(n).map(self.f)
+    }
+    fn size_hint(&self) -> (usize, Option<usize>) {
+        self.it.size_hint()
+    }
+    fn count(self) -> usize {
+        self.it.count()
+    }
+    fn last(self) -> Option<T> {
+        let f = self.f;
+        self.it.last().map(f)
+    }
+    fn fold<B, H>(self, init: B, mut h: H) -> B
+    where
+        H: FnMut(B, T) -> B,
+    {
+        let f = self.f;
+        self.it.fold(init, move |acc, x| h(acc, f(x)))
+    }
+}
+
+impl<I: DoubleEndedIterator, T> DoubleEndedIterator for Fwd<I, T> {
+    fn next_back(&mut self) -> Option<T> {
+        self.it.next_back().map(self.f)
+    }
+    fn nth_back(&mut self, n: usize) -> Option<T> {
+        self.it.nth_back(n).map(self.f)
+    }
+    fn rfold<B, H>(self, init: B, mut h: H) -> B
+    where
+        H: FnMut(B, T) -> B,
+    {
+        let f = self.f;
+        self.it.rfold(init, move |acc, x| h(acc, f(x)))
+    }
+}
+
+impl<I: ExactSizeIterator, T> ExactSizeIterator for Fwd<I, T> {
+    fn len(&self) -> usize {
+        self.it.len()
+    }
+}
+
+fn steps_of(n: usize) -> Vec<usize> {
+    let mut ks = vec![0, 1, n / 2, n.saturating_sub(1), n];
+    ks.retain(|&k| k <= n);
+    ks.sort();
+    ks.dedup();
+    ks
+}
+
+fn len_by_next<I: Iterator + Clone>(it: &I) -> usize {
+    let mut c = it.clone();
+    let mut n = 0;
+    while c.next().is_some() {
+        n += 1;
+        if n > 1_000_000 {
+            panic!("an iterator does not end");
+        }
+    }
+    n
+}
+
+/// `iter_laws` on the fresh iterator and after 1, len/2, len-1, len calls of `next`
+fn it_laws<I>(what: &str, it: I) -> Option<String>
+where
+    I: Iterator + Clone,
+    I::Item: PartialEq + std::fmt::Debug,
+{
+    let n = len_by_next(&it);
+    for k in steps_of(n) {
+        let mut m = it.clone();
+        for _ in 0..k {
+            m.next();
+        }
+        if let Some(e) = iter_laws(m) {
+            return Some(format!("{} after {} of {} items: {}", what, k, n, e));
+        }
+    }
+    None
+}
+
+/// the double-ended and exact-size laws, fresh, after steps from the front, from the back and from both ends
+fn it_laws_de_exact<I>(what: &str, it: I) -> Option<String>
+where
+    I: DoubleEndedIterator + ExactSizeIterator + Clone,
+    I::Item: PartialEq + std::fmt::Debug,
+{
+    let n = len_by_next(&it);
+    for k in steps_of(n) {
+        for back in steps_of(n - k) {
+            if back > 2 && back < n - k {
+                continue;
+            }
+            let mut m = it.clone();
+            for _ in 0..k {
+                m.next();
+            }
+            for _ in 0..back {
+                m.next_back();
+            }
+            if let Some(e) = iter_laws_de(m.clone()) {
+                return Some(format!("{} after {} x next and {} x next_back of {} items: {}", what, k, back, n, e));
+            }
+            if let Some(e) = iter_laws_exact(m) {
+                return Some(format!("{} after {} x next and {} x next_back of {} items: {}", what, k, back, n, e));
+            }
+        }
+    }
+    None
+}
+
+/// one protocol line `law <name> => ok | VIOLATED <why>`; a panic inside a law is a violation too
+fn law(ctx: &mut Ctx, name: &str, f: impl FnOnce() -> Option<String>) {
+    let r = match catch_msg(f) {
+        Ok(r) => r,
+        Err(m) => Some(format!("panic: {}", m.replace('\n', " "))),
+    };
+    ctx.line(&format!("law {}", name), &law_verdict(r));
+}
+
+/// the nodes the per-node laws look at: all of them on small graphs, otherwise the hubs, both ends and a sample
+fn sample_nodes(rng: &mut Rng, n: usize, hubs: &[usize]) -> Vec<usize> {
+    if n <= 12 {
+        return (0..n).collect();
+    }
+    let mut v: Vec<usize> = hubs.iter().cloned().filter(|&h| h < n).collect();
+    v.push(0);
+    v.push(n - 1);
+    for _ in 0..5 {
+        v.push(rng.below(n));
+    }
+    v.sort();
+    v.dedup();
+    v
+}
+
+macro_rules! first_some {
+    ($($e:expr),+ $(,)?) => {{
+        let mut r: Option<String> = None;
+        $( if r.is_none() { r = $e; } )+
+        r
+    }};
+}
+
+fn need(cond: bool, why: impl FnOnce() -> String) -> Option<String> {
+    if cond { None } else { Some(why()) }
+}
+
+/// the `VisitMap` contract on a map handed out by `Visitable::visit_map` / repaired by `reset_map`
+fn visit_map_laws<M: VisitMap<Ix>, Ix: IndexType>(m: &mut M, nodes: &[usize], n: usize) -> Option<String> {
+    for i in 0..n {
+        if m.is_visited(&Ix::new(i)) {
+            return Some(format!("node {} is visited in a fresh / reset map", i));
+        }
+    }
+    for &x in nodes {
+        let ix = Ix::new(x);
+        let others: Vec<bool> = (0..n).map(|i| m.is_visited(&Ix::new(i))).collect();
+        if m.unvisit(ix) {
+            return Some(format!("unvisit({}) = true on a node that is not visited", x));
+        }
+        if m.is_visited(&ix) {
+            return Some(format!("unvisit({}) on a node that is not visited marks it visited", x));
+        }
+        if !m.visit(ix) {
+            return Some(format!("first visit({}) = false", x));
+        }
+        if !m.is_visited(&ix) {
+            return Some(format!("is_visited({}) = false after visit", x));
+        }
+        if m.visit(ix) {
+            return Some(format!("second visit({}) = true", x));
+        }
+        if !m.unvisit(ix) {
+            return Some(format!("unvisit({}) = false on a visited node", x));
+        }
+        if m.is_visited(&ix) {
+            return Some(format!("is_visited({}) = true after unvisit", x));
+        }
+        if m.unvisit(ix) {
+            return Some(format!("second unvisit({}) = true", x));
+        }
+        let after: Vec<bool> = (0..n).map(|i| m.is_visited(&Ix::new(i))).collect();
+        if others != after {
+            return Some(format!("visit / unvisit of {} changed the state of another node", x));
+        }
+        // leave every second one visited: the next rounds run on a partly filled map
+        if x % 2 == 0 {
+            m.visit(ix);
+        }
+    }
+    None
+}
+
+fn cer<'a, Ty: EdgeType, Ix: IndexType>(e: petgraph::csr::EdgeReference<'a, i32, Ty, Ix>) -> (usize, usize, usize, i32) {
+    (e.id(), e.source().index(), e.target().index(), *e.weight())
+}
+
+/// an arbitrary prior value for `clone_from`
+fn some_csr<Ty: EdgeType, Ix: IndexType>(rng: &mut Rng, kmax: usize) -> G<Ty, Ix> {
+    let k = match rng.below(4) { 0 => 0, 1 => 1, _ => 2 + rng.below(40) }.min(kmax);
+    let mut a: G<Ty, Ix> = Csr::with_nodes(k);
+    if k > 0 {
+        for _ in 0..rng.below(2 * k + 1) {
+            a.add_edge(Ix::new(rng.below(k)), Ix::new(rng.below(k)), rng.range(-3, 4) as i32);
+        }
+        a[Ix::new(rng.below(k))] = 7;
+    }
+    a
+}
+
+fn csr_laws<Ty: EdgeType + std::fmt::Debug + Clone, Ix: IndexType>(ctx: &mut Ctx, rng: &mut Rng, g: &G<Ty, Ix>, hubs: &[usize]) {
+    let n = g.node_count();
+    let kmax: usize = <Ix as IndexType>::max().index();
+    let nodes = sample_nodes(rng, n, hubs);
+    let ix = |i: usize| Ix::new(i);
+    law(ctx, "iter csr.edges", || {
+        for &a in &nodes {
+            if let Some(e) = it_laws(&format!("edges({})", a), Fwd { it: g.edges(ix(a)), f: cer::<Ty, Ix> }) {
+                return Some(e);
+            }
+            if let Some(e) = it_laws(&format!("IntoEdges::edges({})", a), Fwd { it: IntoEdges::edges(g, ix(a)), f: cer::<Ty, Ix> }) {
+                return Some(e);
+            }
+        }
+        None
+    });
+    law(ctx, "iter csr.edge_references", || {
+        it_laws("edge_references()", Fwd { it: g.edge_references(), f: cer::<Ty, Ix> })
+    });
+    law(ctx, "iter csr.neighbors", || {
+        for &a in &nodes {
+            if let Some(e) = it_laws(&format!("neighbors({})", a), g.neighbors(ix(a))) {
+                return Some(e);
+            }
+        }
+        None
+    });
+    law(ctx, "iter csr.node_identifiers", || it_laws("node_identifiers()", g.node_identifiers()));
+    law(ctx, "iter csr.node_references", || it_laws_de_exact("node_references()", g.node_references()));
+    let small = n <= 64;
+    law(ctx, "traits csr", || {
+        first_some!(
+            need(NodeCount::node_count(g) == n, || "NodeCount::node_count differs from node_count()".into()),
+            need(EdgeCount::edge_count(g) == g.edge_count(), || "EdgeCount::edge_count differs from edge_count()".into()),
+            need(NodeIndexable::node_bound(g) == n, || format!("node_bound = {} with {} nodes", NodeIndexable::node_bound(g), n)),
+            need(GraphProp::is_directed(g) == Ty::is_directed() && g.is_directed() == Ty::is_directed(), || "is_directed differs from the edge type".into()),
+            need(g.node_identifiers().map(|x| x.index()).collect::<Vec<_>>() == (0..n).collect::<Vec<_>>(), || "node_identifiers is not 0..node_count".into()),
+            need(g.node_references().map(|r| (NodeRef::id(&r).index(), *NodeRef::weight(&r))).collect::<Vec<_>>()
+                == (0..n).map(|i| (i, g[ix(i)])).collect::<Vec<_>>(), || "node_references differs from Index".into()),
+            {
+                let mut r = None;
+                for &a in &nodes {
+                    let nb: Vec<usize> = g.neighbors(ix(a)).map(|x| x.index()).collect();
+                    let sl: Vec<usize> = g.neighbors_slice(ix(a)).iter().map(|x| x.index()).collect();
+                    let ws: Vec<i32> = g.edges_slice(ix(a)).to_vec();
+                    let ed: Vec<(usize, usize, i32)> = g.edges(ix(a)).map(|e| (e.source().index(), e.target().index(), *e.weight())).collect();
+                    let want: Vec<(usize, usize, i32)> = sl.iter().zip(ws.iter()).map(|(&t, &w)| (a, t, w)).collect();
+                    if nb != sl || ed != want || g.out_degree(ix(a)) != sl.len() || sl.len() != ws.len() {
+                        r = Some(format!("node {}: neighbors {:?}, neighbors_slice {:?}, edges_slice {:?}, edges {:?}, out_degree {}", a, nb, sl, ws, ed, g.out_degree(ix(a))));
+                        break;
+                    }
+                    if NodeIndexable::to_index(g, NodeIndexable::from_index(g, a)) != a || NodeIndexable::to_index(g, ix(a)) != a {
+                        r = Some(format!("to_index / from_index are not inverse at {}", a));
+                        break;
+                    }
+                }
+                r
+            },
+            if small {
+                // edge_references is the concatenation of the rows (ids, endpoints, weights)
+                let all: Vec<(usize, usize, usize, i32)> = g.edge_references().map(cer::<Ty, Ix>).collect();
+                let cat: Vec<(usize, usize, usize, i32)> = (0..n).flat_map(|a| g.edges(ix(a)).map(cer::<Ty, Ix>).collect::<Vec<_>>()).collect();
+                need(all == cat, || format!("edge_references {:?} is not the concatenation of edges(a) {:?}", all, cat))
+            } else { None },
+            {
+                let m = g.adjacency_matrix();
+                let mut r = None;
+                'o: for &a in &nodes {
+                    for b in 0..n {
+                        if !small && b % 7 != a % 7 { continue; }
+                        let want = g.contains_edge(ix(a), ix(b));
+                        if g.is_adjacent(&m, ix(a), ix(b)) != want {
+                            r = Some(format!("is_adjacent({}, {}) = {} but contains_edge = {}", a, b, !want, want));
+                            break 'o;
+                        }
+                    }
+                }
+                r
+            }
+        )
+    });
+    let (lo, hi) = (n / 2, (n + 5).min(kmax));
+    law(ctx, "visitmap csr", || {
+        let mut m = g.visit_map();
+        first_some!(
+            visit_map_laws::<_, Ix>(&mut m, &nodes, n),
+            {
+                // a map in use, reset for the same graph
+                g.reset_map(&mut m);
+                visit_map_laws::<_, Ix>(&mut m, &nodes, n)
+            },
+            {
+                // a map made for a smaller graph
+                let small_g: G<Ty, Ix> = Csr::with_nodes(lo);
+                let mut m = small_g.visit_map();
+                for i in 0..lo { m.visit(ix(i)); }
+                g.reset_map(&mut m);
+                visit_map_laws::<_, Ix>(&mut m, &nodes, n).map(|e| format!("reset_map of a map made for {} nodes: {}", lo, e))
+            },
+            {
+                // a map made for a larger graph, bits beyond node_count set
+                let big_g: G<Ty, Ix> = Csr::with_nodes(hi);
+                let mut m = big_g.visit_map();
+                for i in 0..hi { m.visit(ix(i)); }
+                g.reset_map(&mut m);
+                let stale = m.count_ones(..);
+                first_some!(
+                    need(stale == 0, || format!("reset_map of a map made for {} nodes leaves {} bits set", hi, stale)),
+                    visit_map_laws::<_, Ix>(&mut m, &nodes, n).map(|e| format!("reset_map of a map made for {} nodes: {}", hi, e))
+                )
+            }
+        )
+    });
+    let prior: G<Ty, Ix> = some_csr(rng, kmax);
+    let extra = rng.range(-2, 9) as i32;
+    law(ctx, "clone csr", || {
+        let want = csr_dump_string(g);
+        let c = g.clone();
+        let mut a = prior;
+        a.clone_from(g);
+        let mut b: G<Ty, Ix> = Csr::new();
+        b.clone_from(g);
+        first_some!(
+            need(csr_dump_string(&c) == want, || format!("clone() is observably different: {}", csr_dump_string(&c))),
+            need(csr_dump_string(&a) == want, || format!("clone_from onto a prior value differs from clone(): {}", csr_dump_string(&a))),
+            need(csr_dump_string(&b) == want, || format!("clone_from onto an empty graph differs from clone(): {}", csr_dump_string(&b))),
+            {
+                // clone, then mutate both: the two values are independent
+                let mut c = c;
+                let mut o = g.clone();
+                let full = n > kmax;
+                if !full { c.add_node(extra); }
+                if n > 0 { o[ix(0)] = extra.wrapping_add(1); c.add_edge(ix(n - 1), ix(0), extra); }
+                let mut r = need(csr_dump_string(g) == want, || "mutating a clone changed the original".into());
+                if r.is_none() && !full {
+                    r = need(o.node_count() == n && c.node_count() == n + 1, || "clones are not independent".into());
+                }
+                r
+            }
+        )
+    });
+    law(ctx, "default csr", || {
+        let d: G<Ty, Ix> = Default::default();
+        let w: G<Ty, Ix> = Csr::new();
+        let z: G<Ty, Ix> = Csr::with_nodes(0);
+        let mut d2: G<Ty, Ix> = Default::default();
+        let mut w2: G<Ty, Ix> = Csr::new();
+        for x in [&mut d2, &mut w2] {
+            let a = x.add_node(1);
+            let b = x.add_node(2);
+            x.add_edge(a, b, 3);
+        }
+        first_some!(
+            need(csr_dump_string(&d) == csr_dump_string(&w), || format!("Default::default() is not new(): {}", csr_dump_string(&d))),
+            need(csr_dump_string(&z) == csr_dump_string(&w), || format!("with_nodes(0) is not new(): {}", csr_dump_string(&z))),
+            need(csr_dump_string(&d2) == csr_dump_string(&w2), || format!("a graph grown from Default::default() differs: {}", csr_dump_string(&d2)))
+        )
+    });
+    law(ctx, "debug csr", || {
+        let mut total = 0usize;
+        total += format!("{:?}", g).len() + format!("{:#?}", g).len();
+        total += format!("{:?} {:?} {:?} {:?}", g.edge_references(), g.node_identifiers(), g.node_references(), g.visit_map()).len();
+        for &a in nodes.iter().take(3) {
+            let mut it = g.edges(ix(a));
+            total += format!("{:?} {:#?} {:?}", it, g.neighbors(ix(a)), it.clone()).len();
+            if let Some(e) = it.next() {
+                let e2 = e; // EdgeReference is Copy
+                total += format!("{:?} {:?}", e, e2.clone()).len();
+                if e2.weight() != e.weight() || e2.id() != e.id() {
+                    return Some("a copied EdgeReference differs".into());
+                }
+            }
+        }
+        let err = petgraph::csr::CsrError::IndicesOutBounds(n, n + 1);
+        let shown = format!("{} / {:?}", err, err);
+        total += shown.len();
+        first_some!(
+            need(total > 0, || "empty Debug output".into()),
+            need(err == err.clone(), || "CsrError != its clone".into()),
+            need(shown.contains(&n.to_string()), || format!("CsrError does not show its payload: {}", shown))
+        )
+    });
+}
+
+fn ler<'a, Ix: IndexType>(e: petgraph::adj::EdgeReference<'a, i32, Ix>) -> (usize, usize, usize, i32) {
+    (e.source().index(), e.target().index(), {
+        let s = eix(&e.id());
+        s.split(':').nth(1).and_then(|x| x.parse().ok()).unwrap_or(usize::MAX)
+    }, *e.weight())
+}
+
+fn some_list<Ix: IndexType>(rng: &mut Rng, kmax: usize) -> List<i32, Ix> {
+    let k = match rng.below(4) { 0 => 0, 1 => 1, _ => 2 + rng.below(12) }.min(kmax);
+    let mut a: List<i32, Ix> = List::new();
+    for _ in 0..k { a.add_node(); }
+    if k > 0 {
+        for _ in 0..rng.below(3 * k + 1) {
+            a.add_edge(Ix::new(rng.below(k)), Ix::new(rng.below(k)), rng.range(-3, 4) as i32);
+        }
+    }
+    a
+}
+
+fn list_laws<Ix: IndexType>(ctx: &mut Ctx, rng: &mut Rng, g: &List<i32, Ix>, hs: &[AEdgeIndex<Ix>]) {
+    let n = g.node_count();
+    let kmax: usize = <Ix as IndexType>::max().index();
+    let nodes = sample_nodes(rng, n, &[]);
+    let ix = |i: usize| Ix::new(i);
+    law(ctx, "iter list.edge_indices_from", || {
+        for &a in &nodes {
+            if let Some(e) = it_laws(&format!("edge_indices_from({})", a), g.edge_indices_from(ix(a))) { return Some(e); }
+        }
+        None
+    });
+    law(ctx, "iter list.neighbors", || {
+        for &a in &nodes {
+            if let Some(e) = it_laws_de_exact(&format!("neighbors({})", a), g.neighbors(ix(a))) { return Some(e); }
+        }
+        None
+    });
+    law(ctx, "iter list.edges", || {
+        for &a in &nodes {
+            if let Some(e) = it_laws(&format!("edges({})", a), IntoEdges::edges(g, ix(a))) { return Some(e); }
+        }
+        None
+    });
+    law(ctx, "iter list.edge_indices", || it_laws("edge_indices()", g.edge_indices()));
+    law(ctx, "iter list.edge_references", || it_laws("edge_references()", g.edge_references()));
+    law(ctx, "iter list.node_indices", || {
+        first_some!(
+            it_laws_de_exact("node_indices()", g.node_indices()),
+            it_laws_de_exact("node_identifiers()", g.node_identifiers()),
+            it_laws_de_exact("node_references()", g.node_references())
+        )
+    });
+    let small = n <= 64;
+    law(ctx, "traits list", || {
+        let refs: Vec<(usize, usize, usize, i32)> = g.edge_references().map(ler::<Ix>).collect();
+        first_some!(
+            need(NodeCount::node_count(g) == n, || "NodeCount::node_count differs".into()),
+            need(EdgeCount::edge_count(g) == g.edge_count() && g.edge_count() == refs.len(), || format!("edge_count = {} / {} but edge_references yields {}", g.edge_count(), EdgeCount::edge_count(g), refs.len())),
+            need(NodeIndexable::node_bound(g) == n, || format!("node_bound = {} with {} nodes", NodeIndexable::node_bound(g), n)),
+            need(GraphProp::is_directed(g), || "is_directed() = false".into()),
+            need(g.node_identifiers().map(|x| x.index()).collect::<Vec<_>>() == (0..n).collect::<Vec<_>>(), || "node_identifiers is not 0..node_count".into()),
+            need(g.node_references().map(|r| { let () = *NodeRef::weight(&r); NodeRef::id(&r).index() }).collect::<Vec<_>>() == (0..n).collect::<Vec<_>>(), || "node_references is not 0..node_count".into()),
+            {
+                // the edge indices of the whole graph name exactly the edge references, in the same order
+                let ids: Vec<AEdgeIndex<Ix>> = g.edge_indices().collect();
+                let mut r = need(ids.len() == refs.len(), || format!("edge_indices yields {} indices, edge_references {} edges", ids.len(), refs.len()));
+                if r.is_none() {
+                    for (e, rf) in ids.iter().zip(g.edge_references()) {
+                        let ok = e == &rf.id()
+                            && g.edge_endpoints(*e) == Some((rf.source(), rf.target()))
+                            && g.edge_weight(*e) == Some(rf.weight());
+                        if !ok {
+                            r = Some(format!("edge index {} does not name the edge reference {:?}", eix(e), ler::<Ix>(rf)));
+                            break;
+                        }
+                    }
+                }
+                r
+            },
+            {
+                let mut r = None;
+                for &a in &nodes {
+                    let nb: Vec<usize> = g.neighbors(ix(a)).map(|x| x.index()).collect();
+                    let ed: Vec<(usize, usize, usize, i32)> = IntoEdges::edges(g, ix(a)).map(ler::<Ix>).collect();
+                    let of_a: Vec<(usize, usize, usize, i32)> = refs.iter().cloned().filter(|r| r.0 == a).collect();
+                    let fr: Vec<AEdgeIndex<Ix>> = g.edge_indices_from(ix(a)).collect();
+                    let fr_ok = fr.len() == ed.len() && fr.iter().zip(IntoEdges::edges(g, ix(a))).all(|(e, rf)| *e == rf.id());
+                    if ed != of_a || nb != ed.iter().map(|r| r.1).collect::<Vec<_>>() || !fr_ok {
+                        r = Some(format!("node {}: neighbors {:?}, edges {:?}, edge_references of it {:?}, edge_indices_from {:?}", a, nb, ed, of_a, fr.iter().map(eix).collect::<Vec<_>>()));
+                        break;
+                    }
+                    if NodeIndexable::to_index(g, NodeIndexable::from_index(g, a)) != a {
+                        r = Some(format!("to_index / from_index are not inverse at {}", a));
+                        break;
+                    }
+                    if g.node_weight(ix(a)).is_none() {
+                        r = Some(format!("node_weight({}) = None on an existing node", a));
+                        break;
+                    }
+                }
+                r
+            },
+            need(g.node_weight(ix(n.min(kmax))).is_none() || n > kmax, || "node_weight(node_count) is Some".into()),
+            {
+                let m = g.adjacency_matrix();
+                let mut r = None;
+                'o: for &a in &nodes {
+                    for b in 0..n {
+                        if !small && b % 7 != a % 7 { continue; }
+                        let want = g.contains_edge(ix(a), ix(b));
+                        if g.is_adjacent(&m, ix(a), ix(b)) != want || g.find_edge(ix(a), ix(b)).is_some() != want {
+                            r = Some(format!("contains_edge({}, {}) = {}, is_adjacent = {}, find_edge = {:?}", a, b, want, g.is_adjacent(&m, ix(a), ix(b)), g.find_edge(ix(a), ix(b)).map(|e| eix(&e))));
+                            break 'o;
+                        }
+                    }
+                }
+                r
+            }
+        )
+    });
+    let (lo, hi) = (n / 2, (n + 5).min(kmax));
+    law(ctx, "visitmap list", || {
+        let mut m = g.visit_map();
+        let mk = |k: usize| { let mut l: List<i32, Ix> = List::new(); for _ in 0..k { l.add_node(); } l };
+        first_some!(
+            visit_map_laws::<_, Ix>(&mut m, &nodes, n),
+            {
+                g.reset_map(&mut m);
+                visit_map_laws::<_, Ix>(&mut m, &nodes, n)
+            },
+            {
+                let mut m = mk(lo).visit_map();
+                for i in 0..lo { m.visit(ix(i)); }
+                g.reset_map(&mut m);
+                visit_map_laws::<_, Ix>(&mut m, &nodes, n).map(|e| format!("reset_map of a map made for {} nodes: {}", lo, e))
+            },
+            {
+                let mut m = mk(hi).visit_map();
+                for i in 0..hi { m.visit(ix(i)); }
+                g.reset_map(&mut m);
+                let stale = m.count_ones(..);
+                first_some!(
+                    need(stale == 0, || format!("reset_map of a map made for {} nodes leaves {} bits set", hi, stale)),
+                    visit_map_laws::<_, Ix>(&mut m, &nodes, n).map(|e| format!("reset_map of a map made for {} nodes: {}", hi, e))
+                )
+            }
+        )
+    });
+    let prior: List<i32, Ix> = some_list(rng, kmax);
+    let cap = rng.below(9);
+    law(ctx, "clone list", || {
+        let want = list_dump_string(g, hs);
+        let c = g.clone();
+        let mut a = prior;
+        a.clone_from(g);
+        let mut b: List<i32, Ix> = List::new();
+        b.clone_from(g);
+        first_some!(
+            need(list_dump_string(&c, hs) == want, || format!("clone() is observably different: {}", list_dump_string(&c, hs))),
+            need(list_dump_string(&a, hs) == want, || format!("clone_from onto a prior value differs from clone(): {}", list_dump_string(&a, hs))),
+            need(list_dump_string(&b, hs) == want, || format!("clone_from onto an empty list differs from clone(): {}", list_dump_string(&b, hs))),
+            {
+                let mut c = c;
+                if n > 0 { c.add_edge(ix(n - 1), ix(0), 9); }
+                if n <= kmax { c.add_node(); }
+                need(list_dump_string(g, hs) == want, || "mutating a clone changed the original".into())
+            }
+        )
+    });
+    law(ctx, "default list", || {
+        let d: List<i32, Ix> = Default::default();
+        let w: List<i32, Ix> = List::new();
+        let z: List<i32, Ix> = List::with_capacity(cap);
+        let mut d2: List<i32, Ix> = Default::default();
+        let mut w2: List<i32, Ix> = List::new();
+        let mut hs2 = vec![];
+        for x in [&mut d2, &mut w2] {
+            let a = x.add_node();
+            let b = x.add_node_with_capacity(cap);
+            hs2.push(x.add_edge(a, b, 3));
+            hs2.push(x.add_edge(a, b, 4));
+        }
+        first_some!(
+            need(list_dump_string(&d, &[]) == list_dump_string(&w, &[]), || format!("Default::default() is not new(): {}", list_dump_string(&d, &[]))),
+            need(list_dump_string(&z, &[]) == list_dump_string(&w, &[]), || format!("with_capacity({}) is not new(): {}", cap, list_dump_string(&z, &[]))),
+            need(list_dump_string(&d2, &hs2) == list_dump_string(&w2, &hs2), || format!("a list grown from Default::default() differs: {}", list_dump_string(&d2, &hs2)))
+        )
+    });
+    law(ctx, "debug list", || {
+        let shown = format!("{:?}", g);
+        let mut total = shown.len() + format!("{:#?}", g).len();
+        total += format!("{:?} {:#?} {:?} {:?} {:?}", g.edge_references(), g.edge_references(), g.edge_indices(), g.node_indices(), g.visit_map()).len();
+        for &a in nodes.iter().take(3) {
+            total += format!("{:?} {:?} {:?}", g.neighbors(ix(a)), g.edge_indices_from(ix(a)), IntoEdges::edges(g, ix(a))).len();
+            if let Some(e) = IntoEdges::edges(g, ix(a)).next() {
+                let e2 = e;
+                total += format!("{:?} {:?}", e, e.id()).len();
+                if e2 != e.clone() { return Some("a copied EdgeReference differs".into()); }
+            }
+        }
+        // the unit-weight instantiation takes the other branch of `Debug for EdgeReferences`
+        let mut u: List<(), Ix> = List::new();
+        for _ in 0..n.min(6) { u.add_node(); }
+        for (s, t, _, _) in g.edge_references().map(ler::<Ix>).filter(|r| r.0 < 6 && r.1 < 6) { u.add_edge(ix(s), ix(t), ()); }
+        let ushown = format!("{:?}", u);
+        total += ushown.len() + format!("{:#?}", u).len();
+        first_some!(
+            need(total > 0, || "empty Debug output".into()),
+            need(shown.contains(&format!("node_count: {}", n)) && shown.contains(&format!("edge_count: {}", g.edge_count())), || format!("Debug does not show the counts: {}", shown)),
+            need(ushown.contains(&format!("edge_count: {}", u.edge_count())), || format!("Debug of the unit-weight list does not show the counts: {}", ushown))
+        )
+    });
 }
 
 pub fn run(ctx: &mut Ctx, case: u64) {
